@@ -6,7 +6,7 @@ CONSTANTS
   Shapes = {"secure3", "insecure3", "secure4", "insecure4", "entapex_s", "entapex_i", "entname_s", "entname_i"}
   Denials = {"nsec", "nsec3", "optout"}
   QKinds = {"positive", "wildcard", "nodata", "nxdomain", "cname1", "cname2", "ds", "dname", "dnamex", "nxdeep"}
-  AdvActs = {"DropRrsig", "DropRrset", "ReplaceRdata", "WrongSigner", "Expire", "ReplayAncestor", "AddCollidingKey", "CorruptSigOctets", "HideCe", "ForgeSigned", "AddBadSig", "CorruptKey", "CorruptDs", "StripProof", "BadNsec3Label", "BadNsec3LabelSigned", "ZeroCounts", "ZeroTtl", "Inject", "CnameLoop"}
+  AdvActs = {"ShortSig", "DropRrsig", "DropRrset", "ReplaceRdata", "WrongSigner", "Expire", "ReplayAncestor", "AddCollidingKey", "CorruptSigOctets", "HideCe", "ForgeSigned", "AddBadSig", "CorruptKey", "CorruptDs", "StripProof", "BadNsec3Label", "BadNsec3LabelSigned", "ZeroCounts", "ZeroTtl", "Inject", "CnameLoop"}
 SPECIFICATION Spec
 VIEW View
 INVARIANT Soundness
